@@ -79,9 +79,14 @@ def accumulator_of(ret: T) -> T:
     """For _format_callstack: the first element of the joined list is the column accumulator."""
     if ret.op == "call" and ret.a[0].op == "attr" and ret.a[0].a[1] == "join" and len(ret.a[1]) == 1:
         x = ret.a[1][0]
+        # chain((prefix,), <frame lines>) / [prefix] + [...] / [prefix, *...]: the first piece is the accumulator
+        if x.op == "call" and x.a[0] == T("global", ("itertools.chain",)) and x.a[1]:
+            x = x.a[1][0]
+        while x.op == "bin" and x.a[0] == "+":
+            x = x.a[1]
         while x.op in ("widen", "mut"):
             x = x.a[2][0] if x.op == "widen" else x.a[0]
-        if x.op == "list" and x.a[0]:
+        if x.op in ("list", "tuple") and x.a[0]:
             return x.a[0][0]
     return ret
 
@@ -183,6 +188,13 @@ def check(repo: Repo, run: Run) -> None:
             pname = fn.args.args[idx].arg
             st = [e for e in rec.effects if e.kind == "attr-store" and e.key == attr]
             ok = len(st) == 1 and not st[0].pc and _same_or_default(st[0].value, param(pname))
+            if not ok and len(st) == 2:
+                # the statement form:  if p is None: self.x = {}  else: self.x = p   (either order) - one store per branch
+                merged = None
+                for a_, b_ in ((st[0], st[1]), (st[1], st[0])):
+                    if len(a_.pc) == 1 and len(b_.pc) == 1 and a_.pc[0][0] == b_.pc[0][0] and a_.pc[0][1] and not b_.pc[0][1]:
+                        merged = T("ite", (a_.pc[0][0], a_.value, b_.value))
+                ok = merged is not None and _same_or_default(merged, param(pname))
             run.ob("R2", ci.module.name, f"{cname}.__init__", f"{attr} stored without copying", ok,
                    "" if ok else f"{cname}.__init__ stores {sym.pretty(st[0].value)[:60] if st else 'nothing'} as self.{attr}: a copy "
                                  f"(or a different object) breaks the sharing with the formatter", line=fn.lineno)
